@@ -318,6 +318,7 @@ fn exec_paths(t: &mut Tape, st: &mut Stats) -> Result<(), String> {
             _ => ServerPre::Silent,
         },
         resp: RespSpec { head: RespHead { v11: resp_v11, status, reason: Some(b"R".to_vec()), fields }, body_wire, payload, close_delimited },
+        prep: 0,
     };
     st.case_digest = t.digest();
     st.describe(|| crate::drive::exgen::spec_json(&spec));
